@@ -88,6 +88,8 @@ def method_specs(kind, cls):
     from cola.ops.operator_base import LinearOperator
     out = []
     for nm in ("_matmat", "_rmatmat", "to_dense"):
+        if nm == "_matmat" and kind in ("Kronecker", "KronSum", "BlockDiag"):
+            continue      # reshape/moveaxis kernels: outside the ALG domain, bounded stand-in SYM (C01)
         fn = None
         for k in cls.__mro__:
             if nm in k.__dict__:
@@ -133,7 +135,7 @@ def run_methods(chk, prop, kinds=None, which=("_matmat", "_rmatmat", "to_dense",
             if kind == "Triangular" or kind == "TriangularInv":
                 variants = [{"lower": True}, {"lower": False}]
             if kind == "BlockDiag":
-                variants = [{"mult": "sym"}]
+                variants = [{"mult": "sym"}] if nm != "to_dense" else [{"mult": (1, 1, 1)}, {"mult": (2, 1, 3)}, {"mult": (3, 2, 1)}]
             if kind == "GenericOp" and nm == "to_dense":
                 variants = [{"wide": False}, {"wide": True}]
             for ar, (dt, xdt), an, opd, var in itertools.product(ars, dtypes, anns, operands, variants):
